@@ -172,7 +172,13 @@ class _Lin(Identity):
 class _Addmm(Identity):
     def configs(self, tier):
         return [{"a": list(x), "b": list(y), "c": list(z)} for x, y, z in
-                [((2, 2), (2, 3), (3, 2)), ((2,), (2, 3), (3, 2)), ((), (2, 1), (1, 2)), ((2, 1), (2, 2), (2, 3))]]
+                [((2, 2), (2, 3), (3, 2)), ((2,), (2, 3), (3, 2)), ((), (2, 1), (1, 2)), ((2, 1), (2, 2), (2, 3))]] + \
+               [{"a": list(x), "b": list(y), "c": list(z), "ext": True} for x, y, z in
+                # batched matrix operands are in the domain of "a + b @ c"; if addmm accepts them too, the two sides agree
+                [((2, 2), (2, 2, 3), (2, 3, 2)), ((2, 2), (2, 3), (2, 3, 2)), ((2,), (1, 2, 3), (2, 3, 2)), ((2,), (2, 1, 3), (3, 2))]]
+
+    def may_reject(self, a):
+        return bool(a.get("ext"))
 
     def inputs(self, a):
         return [Inp("a", a["a"]), Inp("b", a["b"]), Inp("c", a["c"])]
@@ -551,7 +557,15 @@ class Case:
         specs = self.idn.inputs(self.args)
         self.idn.env = env
         arrays = [env.arr(sp.label, sp.shape, np.float32, **sp.dom) for sp in specs]
-        tl, ol = self._side(env, specs, arrays, "l")
+        try:
+            tl, ol = self._side(env, specs, arrays, "l")
+        except Exception as e:  # noqa: BLE001
+            from ..symnum.engine import exception_origin
+            mr = getattr(self.idn, "may_reject", None)
+            if mr is not None and mr(self.args) and not isinstance(e, sc.Unsupported) and exception_origin(e) == "repo":
+                out.rejected = "%s: %s" % (type(e).__name__, e)    # outside the common domain of the two sides
+                return out
+            raise
         tr, orr = self._side(env, specs, arrays, "r")
         out.fact("same number of outputs", len(ol) == len(orr))
         Tn = T()
